@@ -27,6 +27,10 @@ def main():
         print('no check for %s: %s' % (prop, e))
         return 2
     try:
+        common.inject_extension()      # compiled rainflow kernel rebuilt from the current extension.pyx
+    except Exception as e:
+        res.oblige('rainflow extension builds from extension.pyx', False, repr(e))
+    try:
         if a.replay:
             rp = json.load(open(a.replay))
             return mod.replay(res, rp)
